@@ -38,13 +38,24 @@ class SRecord:
 
 def write_srecord(obj, f):
     """Write object to srecord"""
-    data = obj.get_section("code").data
-    record = SRecord(1, 0, b"HDR")
+    section = obj.get_section("code")
+    data = section.data
+    address = section.address
+
+    # Select the record types by the highest address used:
+    end_address = address + len(data)
+    if end_address <= 0x10000:
+        data_typ, end_typ = 1, 9  # 16 bits addresses
+    elif end_address <= 0x1000000:
+        data_typ, end_typ = 2, 8  # 24 bits addresses
+    else:
+        data_typ, end_typ = 3, 7  # 32 bits addresses
+
+    record = SRecord(0, 0, b"HDR")
     print(record.to_line(), file=f)
-    address = 0
     for chunk in chunks(data):
-        record = SRecord(1, address, chunk)
+        record = SRecord(data_typ, address, chunk)
         print(record.to_line(), file=f)
         address += len(chunk)
-    record = SRecord(9, 0, bytes())
+    record = SRecord(end_typ, 0, bytes())
     print(record.to_line(), file=f)
